@@ -28,6 +28,7 @@ import (
 	"os/exec"
 	"reflect"
 	"runtime"
+	"sort"
 	"strings"
 	"sync"
 	"time"
@@ -739,6 +740,12 @@ func pureTier(a hx.Args, rng *hx.Rng, res *hx.Result) (fresh []string) {
 		}
 	}
 	reported := map[string]bool{}
+	type pending struct {
+		n     int
+		what  string
+		input map[string]interface{}
+	}
+	var pend []pending
 	for k, ord := range orders {
 		if results[k] == nil {
 			continue
@@ -767,9 +774,13 @@ func pureTier(a hx.Args, rng *hx.Rng, res *hx.Result) (fresh []string) {
 					break
 				}
 			}
-			res.Violate("C08/pure:type-cache-order", fmt.Sprintf("%q returns %s as the first call of a fresh process but %s after the calls listed (same arguments): the result depends on which use of the element type reached the type cache first", o.name, fresh[i], obs),
-				map[string]interface{}{"calls_in_order": opNames(calls), "call": o.name, "fresh_process": fresh[i], "after_history": obs})
+			pend = append(pend, pending{len(calls), fmt.Sprintf("%q returns %s as the first call of a fresh process but %s after the calls listed (same arguments): the result depends on which use of the element type reached the type cache first", o.name, fresh[i], obs),
+				map[string]interface{}{"calls_in_order": opNames(calls), "call": o.name, "fresh_process": fresh[i], "after_history": obs}})
 		}
+	}
+	sort.SliceStable(pend, func(i, j int) bool { return pend[i].n < pend[j].n })
+	for _, p := range pend {
+		res.Violate("C08/pure:type-cache-order", p.what, p.input)
 	}
 	res.Histogram["pure-orders"] = len(orders)
 
